@@ -330,15 +330,18 @@ theorem opt_roundtrip (cfg : KCfg) (a : AOpt) (hwf : a.wf = true) (hnm : ∀ n, 
     by_cases hc : dbg = true ∧ lvl = s "7"
     · rw [if_pos hc, hc.2]; decide
     · rw [if_neg hc]
-  | setMark hex x v =>
+  | setMark hex mask x v =>
     simp only [AOpt.wf, Bool.and_eq_true, Bool.or_eq_true, Bool.not_eq_eq_eq_not, Bool.not_true, beq_iff_eq] at hwf
-    obtain ⟨⟨⟨⟨_, hhex⟩, hsome⟩, heq⟩, hx⟩ := hwf
+    obtain ⟨⟨⟨⟨⟨_, hhex⟩, hsome⟩, heq⟩, hx⟩, hmask⟩ := hwf
+    subst hmask
     have hk := xConvV_kernel hex (hex_noslash hhex)
     have hmr := mark_roundtrip hex v heq hsome
-    have hkern : nEntry d2 (pkv (AOpt.kernel cfg (.setMark hex x v))) =
+    have e2 : s "0x" ++ hex ++ s "/0x" ++ s "ffffffff" = s "0x" ++ hex ++ s "/0xffffffff" := by
+      rw [List.append_assoc (s "0x" ++ hex)]; rfl
+    have hkern : nEntry d2 (pkv (AOpt.kernel cfg (.setMark hex (s "ffffffff") x v))) =
         some (kMark, normMark v) := by
       simp only [AOpt.kernel]
-      rw [pkv_plain _ _ _ (by decide), value_no, join1]
+      rw [pkv_plain _ _ _ (by decide), value_no, join1, e2]
       unfold nEntry
       rw [if_neg (by intro hc; exact absurd hc.1 kX_ne_kM), if_pos ⟨rfl, hk⟩, normVal_mark, ← hmr]
     rw [hkern]
